@@ -1,7 +1,7 @@
 //go:build verif
 
 // Contracts for package rpc: lock discipline of the connection mutex and of the sender lock
-// (C08, C09, C10).  The package's locks are tracked as typestate only (held / not held); the
+// (C08, C09).  The package's locks are tracked as typestate only (held / not held); the
 // state they protect is not exposed to other goroutines in this model.
 package rpc
 
@@ -51,7 +51,7 @@ package rpc
 
 // Every return of Close leaves the connection mutex released.
 //@ func Conn.Close -> err
-//@   props C10
+//@   props C09
 //@   locktypestate
 //@   partial lock pre
 //@   requires c != nil && nolocks()
@@ -59,7 +59,7 @@ package rpc
 
 // Every return of Send leaves c.mu and the sender lock released, whatever fails on the way.
 //@ func importClient.Send -> ans, rel
-//@   props C08 C09
+//@   props C09
 //@   locktypestate
 //@   partial lock pre post
 //@   requires ic != nil && ic.c != nil && nolocks() && !sending(ic.c)
@@ -67,7 +67,7 @@ package rpc
 //@   ensures sender: !sending(ic.c)
 
 //@ func question.PipelineSend -> ans, rel
-//@   props C08 C09
+//@   props C09
 //@   locktypestate
 //@   partial lock pre post
 //@   requires q != nil && q.c != nil && nolocks() && !sending(q.c)
@@ -76,7 +76,7 @@ package rpc
 
 // Shutdown of an import: lock discipline, and the import table entry it reads must exist.
 //@ func importClient.Shutdown
-//@   props C07 C10
+//@   props C09
 //@   locktypestate
 //@   partial lock
 //@   requires ic != nil && ic.c != nil && nolocks()
